@@ -21,6 +21,20 @@ from vf.tlc import parse_tagged
 KINDS = {"bytes": bytes, "bytearray": bytearray, "memoryview": memoryview}
 
 
+def feed(helper, kind: str, chunk: bytes) -> None:
+    """Hand one received chunk to the helper the way a buffer-recycling transport does: mutable kinds live in
+    a buffer that is overwritten as soon as data_received has returned - whatever the helper keeps (the tail of
+    an incomplete frame, payloads it has delivered) must not alias it."""
+    if kind == "bytes":
+        helper.data_received(chunk)
+        return
+    buf = bytearray(chunk)
+    try:
+        helper.data_received(buf if kind == "bytearray" else memoryview(buf))
+    finally:
+        buf[:] = b"\xa5" * len(buf)
+
+
 def _err_class(conn, helper):
     from aioesphomeapi.core import ProtocolAPIError, RequiresEncryptionAPIError
 
@@ -73,9 +87,8 @@ def replay_behaviour(frames, hist, rng):
     for i, h in enumerate(hist):
         chunk = stream[pos : pos + h["n"]]
         pos += h["n"]
-        data = KINDS[h["kind"]](chunk)
         try:
-            helper.data_received(data)
+            feed(helper, h["kind"], chunk)
         except Exception as ex:  # noqa: BLE001
             return {"step": i, "field": "exception", "observed": repr(ex)}
         got = conn.packets
@@ -150,7 +163,7 @@ def record_trace(rng: random.Random, big: bool):
         kind = rng.choice(list(KINDS))
         exc = None
         try:
-            helper.data_received(KINDS[kind](stream[a:b]))
+            feed(helper, kind, stream[a:b])
         except Exception as ex:  # noqa: BLE001
             exc = repr(ex)
         nd = len(conn.packets)
